@@ -766,3 +766,41 @@ Theorem C01_walked_list_is_configured :
     pools_of (reg_init v pfs) (rf_fam pf) (rf_name pf) = ordered_keys pf.
 Proof. exact reg_init_pools. Qed.
 Print Assumptions C01_walked_list_is_configured.
+
+(* ================================================================ allocator.NewContext: AAA attributes -> offer *)
+(* which attribute decides what: the context of a session with an IPv4 profile carries an address iff
+   "ipv4_address" is a string that parses (the 16-byte form net.ParseIP returns); absent, non-string or
+   unparseable leaves it nil; "pool" (a string) is the override; without a profile name nothing is read *)
+Theorem C01_new_context4 :
+  forall pf vrf at4,
+    let cx := new_context4 pf vrf at4 in
+    c4_pf cx = pf /\ c4_vrf cx = vrf /\ c4_pool cx = None /\
+    (forall b, c4_addr cx = Some b <-> pf <> 0 /\ exists a, at_v4 at4 = AvStr (Some a) /\ b = go_parse_ip a) /\
+    c4_ov cx = (if N.eqb pf 0 then 0 else match at_pool at4 with AvStr n => n | _ => 0 end).
+Proof. exact new_context4_fields. Qed.
+Print Assumptions C01_new_context4.
+
+(* end to end: what ResolveV4 offers for a context - with C01_new_context4: if AAA supplied a parseable address it
+   is that address and nothing else (never silently replaced by a pool address), otherwise it is an answer of
+   AllocateFromProfile for the profile, the AAA "pool" override and the VRF (C01_profile_order_trace then applies);
+   either way C01_resolve4_stakes_or_no_registry says it is staked for the session *)
+Theorem C01_aaa_to_offer :
+  forall v r s cx obs wobs r' cx' b pool,
+    resolve4_ctx_opt v r s cx obs wobs = Some (r', cx', R4 b pool) ->
+    match c4_addr cx with
+    | Some a0 => b = a0 /\ pool = None
+    | None => exists st st' k, r = Some st /\ r' = Some st' /\ pool = Some k /\
+                reg_step v st (RAlloc F4 (c4_pf cx) (c4_ov cx) (c4_vrf cx) s obs) = Some (st', ROAns k (OA b))
+    end.
+Proof. exact resolve4_from_context. Qed.
+Print Assumptions C01_aaa_to_offer.
+
+Example C01_new_context_nonvacuous :
+  c4_addr (new_context4 1 0 {| at_v4 := AvStr (Some (V4, 30)); at_pool := AvStr 3 |}) = Some (V6, 281470681743390) /\
+  c4_ov (new_context4 1 0 {| at_v4 := AvStr (Some (V4, 30)); at_pool := AvStr 3 |}) = 3 /\
+  c4_addr (new_context4 1 0 {| at_v4 := AvStr None; at_pool := AvNotString |}) = None /\
+  c4_addr (new_context4 0 0 {| at_v4 := AvStr (Some (V4, 30)); at_pool := AvStr 3 |}) = None /\
+  c6_pd (new_context6 1 0 {| at_v6 := AvAbsent; at_pd := AvStr (Some ((V6, pd_net ex_pd + 77), 72));
+                             at_napool := AvAbsent; at_pdpool := AvAbsent |}) = Some (Pfx (Some (V6, pd_net ex_pd)) 72 128).
+Proof. vm_compute. repeat split; reflexivity. Qed.
+Print Assumptions C01_new_context_nonvacuous.
